@@ -1289,23 +1289,21 @@ func (s *sharedEntryAttributes) populateChoiceCaseResolvers(ctx context.Context)
 	// if choice/cases exist, process it
 	for _, choiceResolver := range s.choicesResolvers {
 		for _, elem := range choiceResolver.GetElementNames() {
-			isNew := false
-			var val2 *int32
+			elemPath := append(s.Path(), elem)
 			// Query the Index, stored in the treeContext for the per branch highes precedence
-			v := s.treeContext.GetTreeSchemaCacheClient().GetBranchesHighesPrecedence(ctx, append(s.Path(), elem), CacheUpdateFilterExcludeOwner(s.treeContext.GetActualOwner()))
+			// as it is stored, that is the state before the actual changes
+			oldV := s.treeContext.GetTreeSchemaCacheClient().GetBranchesHighesPrecedence(ctx, elemPath)
+			// the owners that take part in the transaction contribute what is in the tree, not what is stored
+			v := s.treeContext.GetTreeSchemaCacheClient().GetBranchesHighesPrecedence(ctx, elemPath, CacheUpdateFilterExcludeOwners(s.treeContext.GetOwners()))
 
+			// consider the value from the tree as well
 			child, childExists := s.childs.GetEntry(elem)
-			// set the value from the tree as well
 			if childExists {
-				x := child.getHighestPrecedenceValueOfBranch()
-				val2 = &x
+				if x := child.getHighestPrecedenceValueOfBranch(); x < v {
+					v = x
+				}
 			}
-
-			if val2 != nil && v >= *val2 {
-				v = *val2
-				isNew = true
-			}
-			choiceResolver.SetValue(elem, v, isNew)
+			choiceResolver.SetValue(elem, v, oldV)
 		}
 	}
 }
